@@ -121,11 +121,17 @@ def mioPointContent (m : MioMesh) : List PointItem :=
   ((List.range m.points.length).filter (mioConnected m)).map fun p =>
     ⟨m.points.getD p [], m.pointData.map fun (n, a) => (n, a.row p)⟩
 
-/-- every cell of every block, with the values of ITS block -/
-def mioCellContent (m : MioMesh) : List CellItem :=
-  m.blocks.zipIdx.flatMap fun (b, i) =>
-    (List.range b.2.length).map fun c =>
-      ⟨(fromMioType b.1).getD "", (b.2.getD c []).map (m.points.getD · []),
-       m.cellData.filterMap fun (n, arrs) => arrs[i]?.map fun a => (n, a.row c)⟩
+/-- the cells of the blocks `bs`, the first of which is block number `i` of the mesh: every cell with the
+    values of ITS OWN block -/
+def mioCellContentFrom (m : MioMesh) : Nat → List (String × List (List Nat)) → List CellItem
+  | _, [] => []
+  | i, b :: rest =>
+    ((List.range b.2.length).map fun c =>
+      CellItem.mk ((fromMioType b.1).getD "") ((b.2.getD c []).map (m.points.getD · []))
+        (m.cellData.filterMap fun na => na.2[i]?.map fun a => (na.1, a.row c))) ++
+      mioCellContentFrom m (i + 1) rest
+
+/-- every cell of every block -/
+def mioCellContent (m : MioMesh) : List CellItem := mioCellContentFrom m 0 m.blocks
 
 end Fc.Spec
